@@ -98,6 +98,29 @@ def renderList : List Op → String
 end
 
 mutual
+/-- structural equality of trees (kernel-friendly: used by `decide` in examples and counterexamples) -/
+def Op.beq : Op → Op → Bool
+  | .noop, .noop => true
+  | .value a, .value b => a == b
+  | .code a, .code b => beqList a b
+  | .bin k a b, .bin k' a' b' => k == k' && a.beq a' && b.beq b'
+  | .unary k a, .unary k' a' => k == k' && a.beq a'
+  | .assign n v, .assign n' v' => n == n' && v.beq v'
+  | .short n k v, .short n' k' v' => n == n' && k == k' && v.beq v'
+  | .name n, .name n' => n == n'
+  | .ifx c a b, .ifx c' a' b' => c.beq c' && a.beq a' && b.beq b'
+  | .slice a b c, .slice a' b' c' => a.beq a' && b.beq b' && c.beq c'
+  | .call n a, .call n' a' => n == n' && beqList a a'
+  | .dict a, .dict a' => beqList a a'
+  | .lambda p b, .lambda p' b' => beqList p p' && b.beq b'
+  | _, _ => false
+def beqList : List Op → List Op → Bool
+  | [], [] => true
+  | a :: as, b :: bs => a.beq b && beqList as bs
+  | _, _ => false
+end
+
+mutual
 /-- number of nodes -/
 def Op.size : Op → Nat
   | .noop => 1
